@@ -12,7 +12,25 @@ struct Ctx<'a> {
     j: usize,
     desc: String,
 }
+/// evaluates the konst side inside catch(): a panic there (also one raised by macro-expanded code, whose location is
+/// this file) is an observed outcome, not a harness crash
+macro_rules! ck {
+    ($c:expr, $func:expr, $exp:expr, $obs:expr) => {{
+        let exp = $exp;
+        match catch(|| $obs) {
+            Ok(obs) => $c.ck($func, exp, obs),
+            Err(p) => $c.panicked($func, format!("{exp:?}"), p),
+        }
+    }};
+}
+
 impl Ctx<'_> {
+    fn panicked(&mut self, func: &str, exp: String, msg: String) {
+        self.rep.transitions += 1;
+        self.rep.evaluations += 1;
+        let replay = format!("{}|{}|{}|{}", self.ty, self.l, self.i, self.j);
+        self.rep.violation(viol("cmp", func, replay, format!("{}({})", func, self.desc), exp, format!("panic: {msg}")));
+    }
     fn ck<X: PartialEq + std::fmt::Debug + std::hash::Hash>(&mut self, func: &str, exp: X, obs: X) {
         self.rep.transitions += 1;
         self.rep.evaluations += 1;
@@ -62,32 +80,32 @@ macro_rules! prim_type {
                     let mut c = Ctx { rep, ty: $name, l, i, j, desc: format!("{x:?}, {y:?}") };
                     c.rep.states += 1;
                     let (e, o) = (x == y, x.cmp(y));
-                    c.ck(stringify!($eqs), e, $eqs(x, y));
-                    c.ck(stringify!($cmps), o, $cmps(x, y));
-                    c.ck("const_eq!(slices)", e, const_eq!(x, y));
-                    c.ck("const_cmp!(slices)", o, const_cmp!(x, y));
-                    c.ck("CmpWrapper::const_eq", e, konst::cmp::CmpWrapper(x).const_eq(&y));
-                    c.ck("CmpWrapper::const_cmp", o, konst::cmp::CmpWrapper(x).const_cmp(&y));
-                    c.ck("const_eq_for!(slice; default)", e, const_eq_for!(slice; x, y));
-                    c.ck("const_cmp_for!(slice; default)", o, const_cmp_for!(slice; x, y));
-                    c.ck("const_eq_for!(slice; |l, r|)", e, const_eq_for!(slice; x, y, |l, r| *l == *r));
-                    c.ck("const_cmp_for!(slice; |l, r|)", o, const_cmp_for!(slice; x, y, |l, r| l.cmp(r)));
-                    c.ck("const_eq_for!(slice; |x| key)", e, const_eq_for!(slice; x, y, |v| *v));
-                    c.ck("const_cmp_for!(slice; |x| key)", o, const_cmp_for!(slice; x, y, |v| *v));
-                    c.ck("const_eq_for!(slice; path)", e, const_eq_for!(slice; x, y, by_ref_eq));
-                    c.ck("const_cmp_for!(slice; path)", o, const_cmp_for!(slice; x, y, by_ref_cmp));
+                    ck!(c, stringify!($eqs), e, $eqs(x, y));
+                    ck!(c, stringify!($cmps), o, $cmps(x, y));
+                    ck!(c, "const_eq!(slices)", e, const_eq!(x, y));
+                    ck!(c, "const_cmp!(slices)", o, const_cmp!(x, y));
+                    ck!(c, "CmpWrapper::const_eq", e, konst::cmp::CmpWrapper(x).const_eq(&y));
+                    ck!(c, "CmpWrapper::const_cmp", o, konst::cmp::CmpWrapper(x).const_cmp(&y));
+                    ck!(c, "const_eq_for!(slice; default)", e, const_eq_for!(slice; x, y));
+                    ck!(c, "const_cmp_for!(slice; default)", o, const_cmp_for!(slice; x, y));
+                    ck!(c, "const_eq_for!(slice; |l, r|)", e, const_eq_for!(slice; x, y, |l, r| *l == *r));
+                    ck!(c, "const_cmp_for!(slice; |l, r|)", o, const_cmp_for!(slice; x, y, |l, r| l.cmp(r)));
+                    ck!(c, "const_eq_for!(slice; |x| key)", e, const_eq_for!(slice; x, y, |v| *v));
+                    ck!(c, "const_cmp_for!(slice; |x| key)", o, const_cmp_for!(slice; x, y, |v| *v));
+                    ck!(c, "const_eq_for!(slice; path)", e, const_eq_for!(slice; x, y, by_ref_eq));
+                    ck!(c, "const_cmp_for!(slice; path)", o, const_cmp_for!(slice; x, y, by_ref_cmp));
                     // laws on konst's own answers
-                    c.ck("antisymmetry(cmp_slice)", $cmps(x, y).reverse(), $cmps(y, x));
-                    c.ck("cmp==Equal <=> eq", $eqs(x, y), $cmps(x, y) == Ordering::Equal);
+                    ck!(c, "antisymmetry(cmp_slice)", $cmps(x, y).reverse(), $cmps(y, x));
+                    ck!(c, "cmp==Equal <=> eq", $eqs(x, y), $cmps(x, y) == Ordering::Equal);
                     // Option<&[T]> : all four combinations
                     for (ox, oy) in [(Some(x), Some(y)), (Some(x), None), (None, Some(y)), (None, None)] {
                         c.desc = format!("{ox:?}, {oy:?}");
-                        c.ck(stringify!($eqos), ox == oy, $eqos(ox, oy));
-                        c.ck(stringify!($cmpos), ox.cmp(&oy), $cmpos(ox, oy));
-                        c.ck("const_eq!(Option<&[T]>)", ox == oy, const_eq!(ox, oy));
-                        c.ck("const_cmp!(Option<&[T]>)", ox.cmp(&oy), const_cmp!(ox, oy));
-                        c.ck("const_eq_for!(option; slices)", ox == oy, const_eq_for!(option; ox, oy));
-                        c.ck("const_cmp_for!(option; slices)", ox.cmp(&oy), const_cmp_for!(option; ox, oy));
+                        ck!(c, stringify!($eqos), ox == oy, $eqos(ox, oy));
+                        ck!(c, stringify!($cmpos), ox.cmp(&oy), $cmpos(ox, oy));
+                        ck!(c, "const_eq!(Option<&[T]>)", ox == oy, const_eq!(ox, oy));
+                        ck!(c, "const_cmp!(Option<&[T]>)", ox.cmp(&oy), const_cmp!(ox, oy));
+                        ck!(c, "const_eq_for!(option; slices)", ox == oy, const_eq_for!(option; ox, oy));
+                        ck!(c, "const_cmp_for!(option; slices)", ox.cmp(&oy), const_cmp_for!(option; ox, oy));
                     }
                     if x.len() != y.len() && !x.is_empty() && !y.is_empty() && x[0] != y[0] {
                         c.rep.nontrivial(|| format!("{} {:?} vs {:?} (different lengths, first elements differ)", $name, x, y));
@@ -112,25 +130,25 @@ macro_rules! prim_type {
                 for (i, &a) in sc.iter().enumerate() { for (j, &b) in sc.iter().enumerate() {
                     let mut c = Ctx { rep, ty: $name, l: 0, i, j, desc: format!("{a:?}, {b:?}") };
                     c.rep.states += 1;
-                    c.ck(stringify!($cmpv), a.cmp(&b), $cmpv(a, b));
-                    c.ck("const_eq!(scalar)", a == b, const_eq!(a, b));
-                    c.ck("const_cmp!(scalar)", a.cmp(&b), const_cmp!(a, b));
-                    c.ck("assertc_eq!(scalar) panics iff !=", a != b, panics(|| { assertc_eq!(a, b); }));
-                    c.ck("assertc_ne!(scalar) panics iff ==", a == b, panics(|| { assertc_ne!(a, b); }));
+                    ck!(c, stringify!($cmpv), a.cmp(&b), $cmpv(a, b));
+                    ck!(c, "const_eq!(scalar)", a == b, const_eq!(a, b));
+                    ck!(c, "const_cmp!(scalar)", a.cmp(&b), const_cmp!(a, b));
+                    ck!(c, "assertc_eq!(scalar) panics iff !=", a != b, panics(|| { assertc_eq!(a, b); }));
+                    ck!(c, "assertc_ne!(scalar) panics iff ==", a == b, panics(|| { assertc_ne!(a, b); }));
                     for (oa, ob) in [(Some(a), Some(b)), (Some(a), None), (None, Some(b)), (None, None)] {
                         c.desc = format!("{oa:?}, {ob:?}");
-                        c.ck(stringify!($eqov), oa == ob, $eqov(oa, ob));
-                        c.ck(stringify!($cmpov), oa.cmp(&ob), $cmpov(oa, ob));
-                        c.ck("const_eq!(Option<scalar>)", oa == ob, const_eq!(oa, ob));
-                        c.ck("const_cmp!(Option<scalar>)", oa.cmp(&ob), const_cmp!(oa, ob));
-                        c.ck("const_eq_for!(option; scalar)", oa == ob, const_eq_for!(option; oa, ob));
-                        c.ck("const_cmp_for!(option; scalar)", oa.cmp(&ob), const_cmp_for!(option; oa, ob));
-                        c.ck("const_eq_for!(option; |l, r|)", oa == ob, const_eq_for!(option; oa, ob, |l, r| *l == *r));
-                        c.ck("const_cmp_for!(option; |l, r|)", oa.cmp(&ob), const_cmp_for!(option; oa, ob, |l, r| l.cmp(r)));
-                        c.ck("const_eq_for!(option; |x| key)", oa == ob, const_eq_for!(option; oa, ob, |v| *v));
-                        c.ck("const_cmp_for!(option; |x| key)", oa.cmp(&ob), const_cmp_for!(option; oa, ob, |v| *v));
-                        c.ck("const_eq_for!(option; path)", oa == ob, const_eq_for!(option; oa, ob, by_ref_eq));
-                        c.ck("const_cmp_for!(option; path)", oa.cmp(&ob), const_cmp_for!(option; oa, ob, by_ref_cmp));
+                        ck!(c, stringify!($eqov), oa == ob, $eqov(oa, ob));
+                        ck!(c, stringify!($cmpov), oa.cmp(&ob), $cmpov(oa, ob));
+                        ck!(c, "const_eq!(Option<scalar>)", oa == ob, const_eq!(oa, ob));
+                        ck!(c, "const_cmp!(Option<scalar>)", oa.cmp(&ob), const_cmp!(oa, ob));
+                        ck!(c, "const_eq_for!(option; scalar)", oa == ob, const_eq_for!(option; oa, ob));
+                        ck!(c, "const_cmp_for!(option; scalar)", oa.cmp(&ob), const_cmp_for!(option; oa, ob));
+                        ck!(c, "const_eq_for!(option; |l, r|)", oa == ob, const_eq_for!(option; oa, ob, |l, r| *l == *r));
+                        ck!(c, "const_cmp_for!(option; |l, r|)", oa.cmp(&ob), const_cmp_for!(option; oa, ob, |l, r| l.cmp(r)));
+                        ck!(c, "const_eq_for!(option; |x| key)", oa == ob, const_eq_for!(option; oa, ob, |v| *v));
+                        ck!(c, "const_cmp_for!(option; |x| key)", oa.cmp(&ob), const_cmp_for!(option; oa, ob, |v| *v));
+                        ck!(c, "const_eq_for!(option; path)", oa == ob, const_eq_for!(option; oa, ob, by_ref_eq));
+                        ck!(c, "const_cmp_for!(option; path)", oa.cmp(&ob), const_cmp_for!(option; oa, ob, by_ref_cmp));
                     }
                 }}
             }
@@ -196,25 +214,25 @@ fn t_str(rep: &mut Report, l: usize, only: Option<(usize, usize)>) {
             let mut c = Ctx { rep, ty: "str", l, i, j, desc: format!("{x:?}, {y:?}") };
             c.rep.states += 1;
             let (e, o) = (x == y, x.cmp(y));
-            c.ck("eq_str", e, konst::eq_str(x, y));
-            c.ck("cmp_str", o, konst::cmp_str(x, y));
-            c.ck("string::eq_str", e, konst::string::eq_str(x, y));
-            c.ck("string::cmp_str", o, konst::string::cmp_str(x, y));
-            c.ck("const_eq!(str)", e, const_eq!(x, y));
-            c.ck("const_cmp!(str)", o, const_cmp!(x, y));
-            c.ck("antisymmetry(cmp_str)", konst::cmp_str(x, y).reverse(), konst::cmp_str(y, x));
-            c.ck("assertc_eq!(str) panics iff !=", !e, panics(|| {
+            ck!(c, "eq_str", e, konst::eq_str(x, y));
+            ck!(c, "cmp_str", o, konst::cmp_str(x, y));
+            ck!(c, "string::eq_str", e, konst::string::eq_str(x, y));
+            ck!(c, "string::cmp_str", o, konst::string::cmp_str(x, y));
+            ck!(c, "const_eq!(str)", e, const_eq!(x, y));
+            ck!(c, "const_cmp!(str)", o, const_cmp!(x, y));
+            ck!(c, "antisymmetry(cmp_str)", konst::cmp_str(x, y).reverse(), konst::cmp_str(y, x));
+            ck!(c, "assertc_eq!(str) panics iff !=", !e, panics(|| {
                 assertc_eq!(x, y);
             }));
-            c.ck("assertc_ne!(str) panics iff ==", e, panics(|| {
+            ck!(c, "assertc_ne!(str) panics iff ==", e, panics(|| {
                 assertc_ne!(x, y);
             }));
             for (ox, oy) in [(Some(x), Some(y)), (Some(x), None), (None, Some(y)), (None, None)] {
                 c.desc = format!("{ox:?}, {oy:?}");
-                c.ck("eq_option_str", ox == oy, konst::eq_option_str(ox, oy));
-                c.ck("cmp_option_str", ox.cmp(&oy), konst::cmp_option_str(ox, oy));
-                c.ck("const_eq!(Option<&str>)", ox == oy, const_eq!(ox, oy));
-                c.ck("const_cmp!(Option<&str>)", ox.cmp(&oy), const_cmp!(ox, oy));
+                ck!(c, "eq_option_str", ox == oy, konst::eq_option_str(ox, oy));
+                ck!(c, "cmp_option_str", ox.cmp(&oy), konst::cmp_option_str(ox, oy));
+                ck!(c, "const_eq!(Option<&str>)", ox == oy, const_eq!(ox, oy));
+                ck!(c, "const_cmp!(Option<&str>)", ox.cmp(&oy), const_cmp!(ox, oy));
             }
             if x.len() != y.len() && !x.is_empty() && !y.is_empty() && x.as_bytes()[0] != y.as_bytes()[0] {
                 c.rep.nontrivial(|| format!("str {x:?} vs {y:?}"));
@@ -241,26 +259,26 @@ fn t_slice_str(rep: &mut Report, l: usize, only: Option<(usize, usize)>) {
             let mut c = Ctx { rep, ty: "slice_str", l, i, j, desc: format!("{x:?}, {y:?}") };
             c.rep.states += 1;
             let (e, o) = (x == y, x.cmp(y));
-            c.ck("eq_slice_str", e, sc::eq_slice_str(x, y));
-            c.ck("cmp_slice_str", o, sc::cmp_slice_str(x, y));
-            c.ck("const_eq!(&[&str])", e, const_eq!(x, y));
-            c.ck("const_cmp!(&[&str])", o, const_cmp!(x, y));
-            c.ck("const_eq_for!(slice; &str elems, eq_str)", e, const_eq_for!(slice; x, y, konst::eq_str));
-            c.ck("const_cmp_for!(slice; &str elems, cmp_str)", o, const_cmp_for!(slice; x, y, konst::cmp_str));
+            ck!(c, "eq_slice_str", e, sc::eq_slice_str(x, y));
+            ck!(c, "cmp_slice_str", o, sc::cmp_slice_str(x, y));
+            ck!(c, "const_eq!(&[&str])", e, const_eq!(x, y));
+            ck!(c, "const_cmp!(&[&str])", o, const_cmp!(x, y));
+            ck!(c, "const_eq_for!(slice; &str elems, eq_str)", e, const_eq_for!(slice; x, y, konst::eq_str));
+            ck!(c, "const_cmp_for!(slice; &str elems, cmp_str)", o, const_cmp_for!(slice; x, y, konst::cmp_str));
             let (bx, by): (&[&[u8]], &[&[u8]]) = (&bseqs[i], &bseqs[j]);
-            c.ck("eq_slice_bytes", bx == by, sc::eq_slice_bytes(bx, by));
-            c.ck("cmp_slice_bytes", bx.cmp(by), sc::cmp_slice_bytes(bx, by));
-            c.ck("const_eq!(&[&[u8]])", bx == by, const_eq!(bx, by));
-            c.ck("const_cmp!(&[&[u8]])", bx.cmp(by), const_cmp!(bx, by));
+            ck!(c, "eq_slice_bytes", bx == by, sc::eq_slice_bytes(bx, by));
+            ck!(c, "cmp_slice_bytes", bx.cmp(by), sc::cmp_slice_bytes(bx, by));
+            ck!(c, "const_eq!(&[&[u8]])", bx == by, const_eq!(bx, by));
+            ck!(c, "const_cmp!(&[&[u8]])", bx.cmp(by), const_cmp!(bx, by));
             for (ox, oy) in [(Some(x), Some(y)), (Some(x), None), (None, Some(y)), (None, None)] {
                 c.desc = format!("{ox:?}, {oy:?}");
-                c.ck("eq_option_slice_str", ox == oy, sc::eq_option_slice_str(ox, oy));
-                c.ck("cmp_option_slice_str", ox.cmp(&oy), sc::cmp_option_slice_str(ox, oy));
+                ck!(c, "eq_option_slice_str", ox == oy, sc::eq_option_slice_str(ox, oy));
+                ck!(c, "cmp_option_slice_str", ox.cmp(&oy), sc::cmp_option_slice_str(ox, oy));
             }
             for (ox, oy) in [(Some(bx), Some(by)), (Some(bx), None), (None, Some(by)), (None, None)] {
                 c.desc = format!("{ox:?}, {oy:?}");
-                c.ck("eq_option_slice_bytes", ox == oy, sc::eq_option_slice_bytes(ox, oy));
-                c.ck("cmp_option_slice_bytes", ox.cmp(&oy), sc::cmp_option_slice_bytes(ox, oy));
+                ck!(c, "eq_option_slice_bytes", ox == oy, sc::eq_option_slice_bytes(ox, oy));
+                ck!(c, "cmp_option_slice_bytes", ox.cmp(&oy), sc::cmp_option_slice_bytes(ox, oy));
             }
             if x.len() != y.len() && !x.is_empty() && !y.is_empty() && x[0] != y[0] {
                 c.rep.nontrivial(|| format!("&[&str] {x:?} vs {y:?}"));
@@ -278,16 +296,16 @@ macro_rules! nonzero {
             for (i, &a) in vals.iter().enumerate() { for (j, &b) in vals.iter().enumerate() {
                 $c.ty = stringify!($NZ); $c.i = i; $c.j = j; $c.desc = format!("{a:?}, {b:?}");
                 $c.rep.states += 1;
-                $c.ck(stringify!($eq), a == b, nz::$eq(a, b));
-                $c.ck(stringify!($cmp), a.cmp(&b), nz::$cmp(a, b));
-                $c.ck("const_eq!(NonZero)", a == b, const_eq!(a, b));
-                $c.ck("const_cmp!(NonZero)", a.cmp(&b), const_cmp!(a, b));
+                ck!($c, stringify!($eq), a == b, nz::$eq(a, b));
+                ck!($c, stringify!($cmp), a.cmp(&b), nz::$cmp(a, b));
+                ck!($c, "const_eq!(NonZero)", a == b, const_eq!(a, b));
+                ck!($c, "const_cmp!(NonZero)", a.cmp(&b), const_cmp!(a, b));
                 for (oa, ob) in [(Some(a), Some(b)), (Some(a), None), (None, Some(b)), (None, None)] {
                     $c.desc = format!("{oa:?}, {ob:?}");
-                    $c.ck(stringify!($eqo), oa == ob, nz::$eqo(oa, ob));
-                    $c.ck(stringify!($cmpo), oa.cmp(&ob), nz::$cmpo(oa, ob));
-                    $c.ck("const_eq!(Option<NonZero>)", oa == ob, const_eq!(oa, ob));
-                    $c.ck("const_cmp!(Option<NonZero>)", oa.cmp(&ob), const_cmp!(oa, ob));
+                    ck!($c, stringify!($eqo), oa == ob, nz::$eqo(oa, ob));
+                    ck!($c, stringify!($cmpo), oa.cmp(&ob), nz::$cmpo(oa, ob));
+                    ck!($c, "const_eq!(Option<NonZero>)", oa == ob, const_eq!(oa, ob));
+                    ck!($c, "const_cmp!(Option<NonZero>)", oa.cmp(&ob), const_cmp!(oa, ob));
                 }
             }}
         }
@@ -305,18 +323,18 @@ macro_rules! ranges {
                 $c.rep.states += 1;
                 let (x, y) = (a0..a1, b0..b1);
                 $c.desc = format!("{x:?}, {y:?}");
-                $c.ck(stringify!($eqr), x == y, rc::$eqr(&x, &y));
-                $c.ck("const_eq!(Range)", x == y, const_eq!(x, y));
-                $c.ck("const_eq_for!(range; ..)", x == y, const_eq_for!(range; x, y));
-                $c.ck("const_eq_for!(range; |l, r|)", x == y, const_eq_for!(range; x, y, |l, r| *l == *r));
-                $c.ck("const_eq_for!(range; |x| key)", x == y, const_eq_for!(range; x, y, |v| *v));
+                ck!($c, stringify!($eqr), x == y, rc::$eqr(&x, &y));
+                ck!($c, "const_eq!(Range)", x == y, const_eq!(x, y));
+                ck!($c, "const_eq_for!(range; ..)", x == y, const_eq_for!(range; x, y));
+                ck!($c, "const_eq_for!(range; |l, r|)", x == y, const_eq_for!(range; x, y, |l, r| *l == *r));
+                ck!($c, "const_eq_for!(range; |x| key)", x == y, const_eq_for!(range; x, y, |v| *v));
                 let (x, y) = (a0..=a1, b0..=b1);
                 $c.desc = format!("{x:?}, {y:?}");
-                $c.ck(stringify!($eqri), x == y, rc::$eqri(&x, &y));
-                $c.ck("const_eq!(RangeInclusive)", x == y, const_eq!(x, y));
-                $c.ck("const_eq_for!(range_inclusive; ..)", x == y, const_eq_for!(range_inclusive; x, y));
-                $c.ck("const_eq_for!(range_inclusive; |l, r|)", x == y, const_eq_for!(range_inclusive; x, y, |l, r| **l == **r));
-                $c.ck("const_eq_for!(range_inclusive; |x| key)", x == y, const_eq_for!(range_inclusive; x, y, |v| **v));
+                ck!($c, stringify!($eqri), x == y, rc::$eqri(&x, &y));
+                ck!($c, "const_eq!(RangeInclusive)", x == y, const_eq!(x, y));
+                ck!($c, "const_eq_for!(range_inclusive; ..)", x == y, const_eq_for!(range_inclusive; x, y));
+                ck!($c, "const_eq_for!(range_inclusive; |l, r|)", x == y, const_eq_for!(range_inclusive; x, y, |l, r| **l == **r));
+                ck!($c, "const_eq_for!(range_inclusive; |x| key)", x == y, const_eq_for!(range_inclusive; x, y, |v| **v));
             }}
         }
     )*};
@@ -357,26 +375,26 @@ fn t_misc(rep: &mut Report) {
                 c.j = j;
                 c.desc = format!("{a:?}, {b:?}");
                 c.rep.states += 1;
-                c.ck("eq_ordering", a == b, oc::eq_ordering(a, b));
-                c.ck("cmp_ordering", a.cmp(&b), oc::cmp_ordering(a, b));
-                c.ck("const_eq!(Ordering)", a == b, const_eq!(a, b));
-                c.ck("const_cmp!(Ordering)", a.cmp(&b), const_cmp!(a, b));
+                ck!(c, "eq_ordering", a == b, oc::eq_ordering(a, b));
+                ck!(c, "cmp_ordering", a.cmp(&b), oc::cmp_ordering(a, b));
+                ck!(c, "const_eq!(Ordering)", a == b, const_eq!(a, b));
+                ck!(c, "const_cmp!(Ordering)", a.cmp(&b), const_cmp!(a, b));
                 for (oa, ob) in [(Some(a), Some(b)), (Some(a), None), (None, Some(b)), (None, None)] {
                     c.desc = format!("{oa:?}, {ob:?}");
-                    c.ck("eq_option_ordering", oa == ob, oc::eq_option_ordering(oa, ob));
-                    c.ck("cmp_option_ordering", oa.cmp(&ob), oc::cmp_option_ordering(oa, ob));
+                    ck!(c, "eq_option_ordering", oa == ob, oc::eq_option_ordering(oa, ob));
+                    ck!(c, "cmp_option_ordering", oa.cmp(&ob), oc::cmp_option_ordering(oa, ob));
                 }
             }
         }
         let p = std::marker::PhantomData::<u8>;
         c.ty = "PhantomData";
         c.desc = "PhantomData, PhantomData".into();
-        c.ck("eq_phantomdata", p == p, oc::eq_phantomdata(p, p));
-        c.ck("cmp_phantomdata", p.cmp(&p), oc::cmp_phantomdata(p, p));
-        c.ck("const_eq!(PhantomData)", true, const_eq!(p, p));
+        ck!(c, "eq_phantomdata", p == p, oc::eq_phantomdata(p, p));
+        ck!(c, "cmp_phantomdata", p.cmp(&p), oc::cmp_phantomdata(p, p));
+        ck!(c, "const_eq!(PhantomData)", true, const_eq!(p, p));
         let pp = std::marker::PhantomPinned;
-        c.ck("eq_phantompinned", pp == pp, oc::eq_phantompinned(pp, pp));
-        c.ck("cmp_phantompinned", pp.cmp(&pp), oc::cmp_phantompinned(pp, pp));
+        ck!(c, "eq_phantompinned", pp == pp, oc::eq_phantompinned(pp, pp));
+        ck!(c, "cmp_phantompinned", pp.cmp(&pp), oc::cmp_phantompinned(pp, pp));
     }
 }
 
